@@ -1,3 +1,6 @@
+import os
+
+from .. import core
 from ..chanprop import ChanSpec
 from .c01 import C01
 
@@ -5,15 +8,30 @@ from .c01 import C01
 class C05(ChanSpec):
     id = "C05"
     design_ref = "DESIGN.md §6 C05 (Chan LTS)"
-    technique = "Lean 4 proof (single closer elected by CAS; transport closed at most once; closed flag / context monotone) over the channel LTS, with monitored executions of concurrent Close calls, write-side failures and in-flight writes"
+    technique = "Lean 4 proof (single closer elected by CAS; transport closed at most once; closed flag / context monotone; invariants of a lifecycle acceptor for active / hand-out / reads / inactive) with monitored executions of concurrent Close calls, write- and read-side failures, in-flight writes and the real read loop"
     level_text = ("Lean 4 theorems over the Chan LTS for any number of concurrent Close calls and every interleaving: exactly one Close wins the flag, the transport is closed at most once and "
                   "exactly once when the winner returns, IsActive is false from the first won CAS on (so after any Close call has returned), the channel context is cancelled and the close "
-                  "error stored once the winning Close has returned, and a sender failure leads to Close. Partial: the read-loop half of the property (active exactly once and before the first "
-                  "read, reads strictly sequential, inactive exactly once with the winner's error) is checked by the tie's event predicates on served channels, not yet by a theorem.")
+                  "error stored once the winning Close has returned, and a sender failure leads to Close. Read-loop half: a lifecycle acceptor whose actions are the observable events of one "
+                  "served channel (active begin/end, hand-out, read begin/end, Close win / transport close / cancel / inactive(e) / return, loop exit) with the guards the code enforces; for "
+                  "every accepted sequence: active at most once and completed before hand-out and before any read, at most one read in flight, transport closed at most once, inactive at most "
+                  "once and with the winner's error, everything done when the winner returns, the loop leaves only with its context cancelled; what the acceptor refuses is listed in a second "
+                  "theorem. Tie for this half: one served channel with its real read loop under the controller (successful reads, EOF / network / timeout read failures, Close from outside, "
+                  "from the active handler and from a read handler, sync and queued channels); every observed event must be accepted, and the predicates are also evaluated on the events alone.")
     level_note = C01.level_note
     rule = C01.rule + "; plus 1-2 closers with distinct errors and write-side transport failures"
     assumptions = ()
-    modelled_not_verified = C01.modelled_not_verified + ("readLoop / serveChannel hand-off barrier",)
+    modelled_not_verified = C01.modelled_not_verified + ("default exception handling (the tail handler closes the channel)",)
+
+    def harness(self, seed, count, tier):
+        lines = super().harness(seed, count, tier)
+        n, scheds, ndfs, bound, cap = self.budgets[tier]
+        for args in (["-seed", str(seed + 3), "-count", str(n * count), "-scheds", str(scheds)],
+                     ["-seed", str(seed + 11), "-count", str(ndfs * count), "-dfs", str(bound), "-dfscap", str(max(100, cap // 4))]):
+            rc, so, se = core.run([os.path.join(core.BIN, "nvhc"), "-prop", "C05L"] + args, timeout=self.harness_timeout[tier])
+            lines += [l for l in so.split("\n") if l]
+            if rc != 0:
+                lines.append("C05L crash harness-exit-%d %s" % (rc, se[-200:].replace("\n", " ")))
+        return lines
 
 
 SPEC = C05()
